@@ -43,6 +43,16 @@
 (*     after NsRelease the same drain delivers L1's data, registers L2 (s.streams is still non-nil: the teardown runs on   *)
 (*     the same goroutine later) and delivers its data (DrainEnd).  L2 is thus registered between Close() and the         *)
 (*     teardown lambda; the lambda takes the table when it RUNS, so it closes L2 as well.                                 *)
+(*  D9 "flush-in-retry": the peer is stalled, the user fills the send queue (on an extra stream that is not in Streams) and   *)
+(*     one more Flush sits in the retry loop `select { retryTimer | writeDeadline | closeNotifyCh }` (10 x 10 ms).  It is   *)
+(*     released by Session.Close's notification of the streams (CloseNotify) with ErrStreamClosed, or it gives up by       *)
+(*     itself (RetryExpire, ErrQueueFull).  RetryWoken = FALSE models a select without the closeNotifyCh arm: the next      *)
+(*     retry after the teardown dereferences the nil queue manager / the cleaned send buffer ("fault").  While the queue    *)
+(*     is full no other Flush / user Stream.Close / fallback flush is part of the workload.                                 *)
+(*  D10 writer call sequences on a stream of a shut-down session (Reserve x2, WriteBytes.Reserve, Reserve.WriteString ...,   *)
+(*     each followed by Flush) are one action WriteSeq: nothing is allocated from the shared memory of a closed session      *)
+(*     (FixedReserve), so the result is "ok" (the Flush then fails); FixedReserve = FALSE models an allocation path without  *)
+(*     the check: "fault" once the buffer-manager reference is dropped.                                                      *)
 (*  D5 the buffer-manager reference is per end ("held"/"released"); whether the mapping goes away depends on the other    *)
 (*     holders in the same process and is decided by the census of the harness.                                           *)
 (* Constant Atomic = TRUE restricts the scheduler to run every procedure to completion (or until it blocks): these are    *)
@@ -51,6 +61,10 @@
 EXTENDS Integers, Sequences, FiniteSets, TLC
 CONSTANTS Streams, CbStreams, Closers, Atomic, MaxSend, MaxPeerClose, WithAccept, WithFlush,
           LateStreams,             \* {} or two streams that do not exist at the start (D8)
+          WithRetry,               \* a Flush parked inside its queue-full retry loop is part of the workload (D9)
+          RetryWoken,              \* TRUE = the code: the retry loop's select has the closeNotifyCh arm
+          WithSeq,                 \* multi-step writer call sequences on a stream of a shut-down session (D10)
+          FixedReserve,            \* TRUE = the code: every allocation path of the BufferWriter checks Session.IsClosed()
           FixedOpen, FixedFlush,   \* TRUE = the code after the fix: commits a49166e (OpenStream) and 075bc66 (Flush / alloc)
           MaxOps       \* bound on the number of user / peer operations of one behaviour (the workload length)
 
@@ -80,6 +94,9 @@ VARIABLES shutdown,   \* Session.shutdown
           tdRuns, nsent, npc,
           nops,       \* user / peer operations so far
           nsBusy,     \* the event loop is inside the user's OnNewStream (D8)
+          fr,         \* a Flush inside its queue-full retry loop: "idle" | "parked" | "err" | "fault" (D9)
+          qfull,      \* the send queue is full (the peer is stalled)
+          lastSeq,    \* writer call sequence on a shut-down session: "none" | "ok" | "fault" (D10)
           lastOpen,   \* OpenStream after shutdown = 1: "none" | "err" | "nilnil"
           lastSend,   \* last Flush: "none" | "ok" | "err" | "fault";  sendLate = it started when shutdown was already 1
           sendLate,
@@ -88,7 +105,7 @@ VARIABLES shutdown,   \* Session.shutdown
 
 vars == <<shutdown, serr, shutCh, pc, ret, lambdas, batch, conn, link, hup, inbox, flag, st, inTable, tableNil, notified,
           cbBusy, waitExit, cbL, cbR, unread, peerClosed, rd, fl, acc, bm, qm, sendLoop, snap, cur, ws, tdRuns, nsent, npc,
-          nops, nsBusy, lastOpen, lastSend, sendLate, openAtDeath, kf>>
+          nops, nsBusy, fr, qfull, lastSeq, lastOpen, lastSend, sendLate, openAtDeath, kf>>
 
 L1 == CHOOSE s \in LateStreams : \A t \in LateStreams : s <= t
 L2 == CHOOSE s \in LateStreams : \A t \in LateStreams : s >= t
@@ -98,6 +115,7 @@ Init == /\ shutdown = 0 /\ serr = "nil" /\ shutCh = FALSE
         /\ lambdas = <<>> /\ batch = <<>> /\ conn = "open" /\ link = "up" /\ hup = FALSE /\ inbox = <<>> /\ flag = 0
         /\ st = [s \in Streams |-> IF s \in LateStreams THEN "none" ELSE "open"]
         /\ inTable = [s \in Streams |-> s \notin LateStreams] /\ tableNil = FALSE /\ nsBusy = FALSE
+        /\ fr = "idle" /\ qfull = FALSE /\ lastSeq = "none"
         /\ notified = [s \in Streams |-> FALSE] /\ cbBusy = [s \in Streams |-> FALSE]
         /\ waitExit = [s \in Streams |-> FALSE] /\ cbL = [s \in Streams |-> 0] /\ cbR = [s \in Streams |-> 0]
         /\ unread = [s \in Streams |-> 0] /\ peerClosed = [s \in Streams |-> FALSE]
@@ -133,26 +151,27 @@ PeerSend(s) == /\ Start /\ Op /\ link = "up" /\ nsent < MaxSend /\ st[s] = "open
                /\ inbox' = Append(inbox, <<"d", s>>) /\ nsent' = nsent + 1
                /\ UNCHANGED <<shutdown, serr, shutCh, pc, ret, lambdas, batch, conn, link, hup, flag, st, inTable, tableNil,
                               notified, cbBusy, waitExit, cbL, cbR, unread, peerClosed, rd, fl, acc, bm, qm, sendLoop, snap,
-                              cur, ws, tdRuns, npc, lastOpen, lastSend, sendLate, openAtDeath, kf, nsBusy>>
+                              cur, ws, tdRuns, npc, lastOpen, lastSend, sendLate, openAtDeath, kf, nsBusy, fr, qfull, lastSeq>>
 
 PeerCloseStream(s) == /\ Start /\ Op /\ link = "up" /\ npc < MaxPeerClose /\ ~peerClosed[s] /\ st[s] = "open" /\ shutdown = 0
                       /\ inbox' = Append(inbox, <<"c", s>>) /\ peerClosed' = [peerClosed EXCEPT ![s] = TRUE]
                       /\ npc' = npc + 1
                       /\ UNCHANGED <<shutdown, serr, shutCh, pc, ret, lambdas, batch, conn, link, hup, flag, st, inTable,
                                      tableNil, notified, cbBusy, waitExit, cbL, cbR, unread, rd, fl, acc, bm, qm, sendLoop,
-                                     snap, cur, ws, tdRuns, nsent, lastOpen, lastSend, sendLate, openAtDeath, kf, nsBusy>>
+                                     snap, cur, ws, tdRuns, nsent, lastOpen, lastSend, sendLate, openAtDeath, kf, nsBusy, fr, qfull, lastSeq>>
 
-PeerDrain == /\ Start /\ Op /\ link = "up" /\ flag = 1 /\ shutdown = 0 /\ conn = "open" /\ fl # "parked"
+PeerDrain == /\ Start /\ Op /\ link = "up" /\ flag = 1 /\ shutdown = 0 /\ conn = "open" /\ fl # "parked" /\ fr # "parked"
+             /\ qfull' = FALSE
              /\ flag' = 0
              /\ UNCHANGED <<shutdown, serr, shutCh, pc, ret, lambdas, batch, conn, link, hup, inbox, st, inTable, tableNil,
                             notified, cbBusy, waitExit, cbL, cbR, unread, peerClosed, rd, fl, acc, bm, qm, sendLoop, snap,
-                            cur, ws, tdRuns, nsent, npc, lastOpen, lastSend, sendLate, openAtDeath, kf, nsBusy>>
+                            cur, ws, tdRuns, nsent, npc, lastOpen, lastSend, sendLate, openAtDeath, kf, nsBusy, fr, lastSeq>>
 
 PeerDies == /\ Start /\ link = "up"
             /\ link' = "down" /\ hup' = (conn # "closed")
             /\ UNCHANGED <<shutdown, serr, shutCh, pc, ret, lambdas, batch, conn, inbox, flag, st, inTable, tableNil,
                            notified, cbBusy, waitExit, cbL, cbR, unread, peerClosed, rd, fl, acc, bm, qm, sendLoop, snap,
-                           cur, ws, tdRuns, nsent, npc, lastOpen, lastSend, sendLate, openAtDeath, kf, nops, nsBusy>>
+                           cur, ws, tdRuns, nsent, npc, lastOpen, lastSend, sendLate, openAtDeath, kf, nops, nsBusy, fr, qfull, lastSeq>>
 
 -----------------------------------------------------------------------------
 \* pending calls of the user
@@ -164,20 +183,20 @@ ParkRead(s) == /\ Start /\ Op /\ s \notin CbStreams /\ rd[s] = "idle" /\ st[s] #
                                                     ELSE IF st[s] = "closed" \/ notified[s] THEN "closed" ELSE "parked"]
                /\ UNCHANGED <<shutdown, serr, shutCh, pc, ret, lambdas, batch, conn, link, hup, inbox, flag, st, inTable,
                               tableNil, notified, cbBusy, waitExit, cbL, cbR, peerClosed, fl, acc, bm, qm, sendLoop, snap,
-                              cur, ws, tdRuns, nsent, npc, lastOpen, lastSend, sendLate, openAtDeath, kf, nsBusy>>
+                              cur, ws, tdRuns, nsent, npc, lastOpen, lastSend, sendLate, openAtDeath, kf, nsBusy, fr, qfull, lastSeq>>
 
 ParkAccept == /\ Start /\ Op /\ WithAccept /\ acc = "idle"
               /\ acc' = IF shutCh THEN "err" ELSE "parked"
               /\ UNCHANGED <<shutdown, serr, shutCh, pc, ret, lambdas, batch, conn, link, hup, inbox, flag, st, inTable,
                              tableNil, notified, cbBusy, waitExit, cbL, cbR, unread, peerClosed, rd, fl, bm, qm, sendLoop,
-                             snap, cur, ws, tdRuns, nsent, npc, lastOpen, lastSend, sendLate, openAtDeath, kf, nsBusy>>
+                             snap, cur, ws, tdRuns, nsent, npc, lastOpen, lastSend, sendLate, openAtDeath, kf, nsBusy, fr, qfull, lastSeq>>
 
 \* a fallback Flush large enough to fill the socket (the peer is not reading): the send loop blocks on EAGAIN
-ParkFlush == /\ Start /\ Op /\ WithFlush /\ fl = "idle" /\ shutdown = 0 /\ conn = "open" /\ link = "up"
+ParkFlush == /\ Start /\ Op /\ WithFlush /\ fl = "idle" /\ shutdown = 0 /\ conn = "open" /\ link = "up" /\ ~qfull
              /\ fl' = "parked"
              /\ UNCHANGED <<shutdown, serr, shutCh, pc, ret, lambdas, batch, conn, link, hup, inbox, flag, st, inTable,
                             tableNil, notified, cbBusy, waitExit, cbL, cbR, unread, peerClosed, rd, acc, bm, qm, sendLoop,
-                            snap, cur, ws, tdRuns, nsent, npc, lastOpen, lastSend, sendLate, openAtDeath, kf, nsBusy>>
+                            snap, cur, ws, tdRuns, nsent, npc, lastOpen, lastSend, sendLate, openAtDeath, kf, nsBusy, fr, qfull, lastSeq>>
 
 \* OnData returns (D2, D3)
 CbRelease(s) ==
@@ -191,7 +210,7 @@ CbRelease(s) ==
               /\ UNCHANGED <<st, inTable, notified, cbR, cbL, rd, kf>>
     /\ UNCHANGED <<shutdown, serr, shutCh, pc, ret, lambdas, batch, conn, link, hup, inbox, flag, tableNil, waitExit,
                    peerClosed, fl, acc, bm, qm, sendLoop, snap, cur, ws, tdRuns, nsent, npc, lastOpen, lastSend, sendLate,
-                   openAtDeath, nops, nsBusy>>
+                   openAtDeath, nops, nsBusy, fr, qfull, lastSeq>>
 
 \* OpenStream once the session is shut down: reads shutdownErr under shutdownLock and falls back to ErrSessionShutdown
 \* while Close is between its CAS and the store of shutdownErr (fix a49166e; before it the result was (nil, nil)).
@@ -204,7 +223,7 @@ TryOpen == /\ Start /\ Op /\ shutdown = 1 /\ lastOpen = "none"
            /\ kf' = IF serr = "nil" /\ ~FixedOpen THEN kf \cup {"open-nil-nil"} ELSE kf
            /\ UNCHANGED <<shutdown, serr, shutCh, pc, ret, lambdas, batch, conn, link, hup, inbox, flag, st, inTable,
                           tableNil, notified, cbBusy, waitExit, cbL, cbR, unread, peerClosed, rd, fl, acc, bm, qm, sendLoop,
-                          snap, cur, ws, tdRuns, nsent, npc, lastSend, sendLate, openAtDeath, nsBusy>>
+                          snap, cur, ws, tdRuns, nsent, npc, lastSend, sendLate, openAtDeath, nsBusy, fr, qfull, lastSeq>>
 
 -----------------------------------------------------------------------------
 \* Session.Close, one action per step, thread t
@@ -212,14 +231,14 @@ CloseCall(c) == /\ Start /\ c \in Closers /\ pc[c] = "idle"
                 /\ pc' = [pc EXCEPT ![c] = "c_cas"] /\ ret' = [ret EXCEPT ![c] = "done"]
                 /\ UNCHANGED <<shutdown, serr, shutCh, lambdas, batch, conn, link, hup, inbox, flag, st, inTable, tableNil,
                                notified, cbBusy, waitExit, cbL, cbR, unread, peerClosed, rd, fl, acc, bm, qm, sendLoop,
-                               snap, cur, ws, tdRuns, nsent, npc, lastOpen, lastSend, sendLate, openAtDeath, kf, nops, nsBusy>>
+                               snap, cur, ws, tdRuns, nsent, npc, lastOpen, lastSend, sendLate, openAtDeath, kf, nops, nsBusy, fr, qfull, lastSeq>>
 
 ExitSetErr(t) == /\ Step(t) /\ pc[t] = "x_err"
                  /\ serr' = IF serr = "nil" THEN "reset" ELSE serr
                  /\ pc' = [pc EXCEPT ![t] = "c_cas"]
                  /\ UNCHANGED <<shutdown, shutCh, ret, lambdas, batch, conn, link, hup, inbox, flag, st, inTable, tableNil,
                                 notified, cbBusy, waitExit, cbL, cbR, unread, peerClosed, rd, fl, acc, bm, qm, sendLoop,
-                                snap, cur, ws, tdRuns, nsent, npc, lastOpen, lastSend, sendLate, openAtDeath, kf, nops, nsBusy>>
+                                snap, cur, ws, tdRuns, nsent, npc, lastOpen, lastSend, sendLate, openAtDeath, kf, nops, nsBusy, fr, qfull, lastSeq>>
 
 CloseCAS(t) == /\ Step(t) /\ pc[t] = "c_cas"
                /\ IF shutdown = 0
@@ -228,22 +247,23 @@ CloseCAS(t) == /\ Step(t) /\ pc[t] = "c_cas"
                     ELSE /\ pc' = [pc EXCEPT ![t] = ret[t]] /\ UNCHANGED <<shutdown, openAtDeath>>
                /\ UNCHANGED <<serr, shutCh, ret, lambdas, batch, conn, link, hup, inbox, flag, st, inTable, tableNil,
                               notified, cbBusy, waitExit, cbL, cbR, unread, peerClosed, rd, fl, acc, bm, qm, sendLoop, snap,
-                              cur, ws, tdRuns, nsent, npc, lastOpen, lastSend, sendLate, kf, nops, nsBusy>>
+                              cur, ws, tdRuns, nsent, npc, lastOpen, lastSend, sendLate, kf, nops, nsBusy, fr, qfull, lastSeq>>
 
 CloseErr(t) == /\ Step(t) /\ pc[t] = "c_err"
                /\ serr' = IF serr = "nil" THEN "user" ELSE serr
                /\ pc' = [pc EXCEPT ![t] = "c_notify"]
                /\ UNCHANGED <<shutdown, shutCh, ret, lambdas, batch, conn, link, hup, inbox, flag, st, inTable, tableNil,
                               notified, cbBusy, waitExit, cbL, cbR, unread, peerClosed, rd, fl, acc, bm, qm, sendLoop, snap,
-                              cur, ws, tdRuns, nsent, npc, lastOpen, lastSend, sendLate, openAtDeath, kf, nops, nsBusy>>
+                              cur, ws, tdRuns, nsent, npc, lastOpen, lastSend, sendLate, openAtDeath, kf, nops, nsBusy, fr, qfull, lastSeq>>
 
 CloseNotify(t) == /\ Step(t) /\ pc[t] = "c_notify"
                   /\ notified' = [s \in Streams |-> notified[s] \/ (inTable[s] /\ ~tableNil)]
                   /\ rd' = [s \in Streams |-> IF rd[s] = "parked" /\ inTable[s] /\ ~tableNil THEN Woken(s, st[s]) ELSE rd[s]]
+                  /\ fr' = IF fr = "parked" /\ RetryWoken /\ ~tableNil THEN "err" ELSE fr    \* closeNotifyCh of the extra stream (D9)
                   /\ pc' = [pc EXCEPT ![t] = "c_chan"]
                   /\ UNCHANGED <<shutdown, serr, shutCh, ret, lambdas, batch, conn, link, hup, inbox, flag, st, inTable,
                                  tableNil, cbBusy, waitExit, cbL, cbR, unread, peerClosed, fl, acc, bm, qm, sendLoop, snap,
-                                 cur, ws, tdRuns, nsent, npc, lastOpen, lastSend, sendLate, openAtDeath, kf, nops, nsBusy>>
+                                 cur, ws, tdRuns, nsent, npc, lastOpen, lastSend, sendLate, openAtDeath, kf, nops, nsBusy, qfull, lastSeq>>
 
 CloseChan(t) == /\ Step(t) /\ pc[t] = "c_chan"
                 /\ shutCh' = TRUE /\ sendLoop' = IF fl = "parked" /\ conn = "open" THEN sendLoop ELSE "exit"
@@ -252,14 +272,14 @@ CloseChan(t) == /\ Step(t) /\ pc[t] = "c_chan"
                 /\ pc' = [pc EXCEPT ![t] = "c_post"]
                 /\ UNCHANGED <<shutdown, serr, ret, lambdas, batch, conn, link, hup, inbox, flag, st, inTable, tableNil,
                                notified, cbBusy, waitExit, cbL, cbR, unread, peerClosed, rd, bm, qm, snap, cur, ws,
-                               tdRuns, nsent, npc, lastOpen, lastSend, sendLate, openAtDeath, kf, nops, nsBusy>>
+                               tdRuns, nsent, npc, lastOpen, lastSend, sendLate, openAtDeath, kf, nops, nsBusy, fr, qfull, lastSeq>>
 
 ClosePost(t) == /\ Step(t) /\ pc[t] = "c_post"
                 /\ lambdas' = Append(lambdas, "teardown")
                 /\ pc' = [pc EXCEPT ![t] = ret[t]]
                 /\ UNCHANGED <<shutdown, serr, shutCh, ret, batch, conn, link, hup, inbox, flag, st, inTable, tableNil,
                                notified, cbBusy, waitExit, cbL, cbR, unread, peerClosed, rd, fl, acc, bm, qm, sendLoop,
-                               snap, cur, ws, tdRuns, nsent, npc, lastOpen, lastSend, sendLate, openAtDeath, kf, nops, nsBusy>>
+                               snap, cur, ws, tdRuns, nsent, npc, lastOpen, lastSend, sendLate, openAtDeath, kf, nops, nsBusy, fr, qfull, lastSeq>>
 
 \* connEventHandler.deferredClose: wakes a writer blocked on EAGAIN, posts the descriptor close
 DeferredCloseVars == IF conn = "open"
@@ -306,20 +326,20 @@ Events == /\ Start /\ pc["loop"] = "idle" /\ conn # "closed" /\ (hup \/ inbox # 
                                  /\ cbBusy' = [s \in Streams |-> cbBusy[s] \/ (S.start[s] /\ S.st[s] = "open")]
           /\ UNCHANGED <<shutdown, serr, shutCh, lambdas, batch, conn, link, flag, inTable, tableNil, waitExit, cbL,
                          peerClosed, fl, acc, bm, qm, sendLoop, snap, cur, ws, tdRuns, nsent, npc, lastOpen, lastSend,
-                         sendLate, openAtDeath, kf, nops, nsBusy>>
+                         sendLate, openAtDeath, kf, nops, nsBusy, fr, qfull, lastSeq>>
 
 DeferredClose == /\ Step("loop") /\ pc["loop"] = "dc"
                  /\ DeferredCloseVars
                  /\ pc' = [pc EXCEPT !["loop"] = "idle"]
                  /\ UNCHANGED <<shutdown, serr, shutCh, ret, batch, link, hup, inbox, flag, st, inTable, tableNil, notified,
                                 cbBusy, waitExit, cbL, cbR, unread, peerClosed, rd, acc, bm, qm, snap, cur, ws, tdRuns,
-                                nsent, npc, lastOpen, lastSend, sendLate, openAtDeath, kf, nops, nsBusy>>
+                                nsent, npc, lastOpen, lastSend, sendLate, openAtDeath, kf, nops, nsBusy, fr, qfull, lastSeq>>
 
 Lambdas == /\ Start /\ pc["loop"] = "idle" /\ lambdas # <<>>
            /\ batch' = lambdas /\ lambdas' = <<>> /\ pc' = [pc EXCEPT !["loop"] = "l_next"]
            /\ UNCHANGED <<shutdown, serr, shutCh, ret, conn, link, hup, inbox, flag, st, inTable, tableNil, notified, cbBusy,
                           waitExit, cbL, cbR, unread, peerClosed, rd, fl, acc, bm, qm, sendLoop, snap, cur, ws, tdRuns,
-                          nsent, npc, lastOpen, lastSend, sendLate, openAtDeath, kf, nops, nsBusy>>
+                          nsent, npc, lastOpen, lastSend, sendLate, openAtDeath, kf, nops, nsBusy, fr, qfull, lastSeq>>
 
 LNext == /\ Step("loop") /\ pc["loop"] = "l_next"
          /\ IF batch = <<>>
@@ -330,14 +350,14 @@ LNext == /\ Step("loop") /\ pc["loop"] = "l_next"
                         ELSE pc' = pc /\ conn' = "closed"
          /\ UNCHANGED <<shutdown, serr, shutCh, ret, lambdas, link, hup, inbox, flag, st, inTable, tableNil, notified,
                         cbBusy, waitExit, cbL, cbR, unread, peerClosed, rd, fl, acc, bm, qm, sendLoop, snap, cur, ws, tdRuns,
-                        nsent, npc, lastOpen, lastSend, sendLate, openAtDeath, kf, nops, nsBusy>>
+                        nsent, npc, lastOpen, lastSend, sendLate, openAtDeath, kf, nops, nsBusy, fr, qfull, lastSeq>>
 
 TdConn == /\ Step("loop") /\ pc["loop"] = "t_conn"
           /\ DeferredCloseVars
           /\ pc' = [pc EXCEPT !["loop"] = "t_table"]
           /\ UNCHANGED <<shutdown, serr, shutCh, ret, batch, link, hup, inbox, flag, st, inTable, tableNil, notified, cbBusy,
                          waitExit, cbL, cbR, unread, peerClosed, rd, acc, bm, qm, snap, cur, ws, tdRuns, nsent, npc,
-                         lastOpen, lastSend, sendLate, openAtDeath, kf, nops, nsBusy>>
+                         lastOpen, lastSend, sendLate, openAtDeath, kf, nops, nsBusy, fr, qfull, lastSeq>>
 
 TdTable == /\ Step("loop") /\ pc["loop"] = "t_table"
            /\ snap' = IF tableNil THEN {} ELSE {s \in Streams : inTable[s]}
@@ -345,7 +365,7 @@ TdTable == /\ Step("loop") /\ pc["loop"] = "t_table"
            /\ pc' = [pc EXCEPT !["loop"] = "t_stream"]
            /\ UNCHANGED <<shutdown, serr, shutCh, ret, lambdas, batch, conn, link, hup, inbox, flag, st, inTable, notified,
                           cbBusy, waitExit, cbL, cbR, unread, peerClosed, rd, fl, acc, bm, qm, sendLoop, cur, ws, tdRuns,
-                          nsent, npc, lastOpen, lastSend, sendLate, openAtDeath, kf, nops, nsBusy>>
+                          nsent, npc, lastOpen, lastSend, sendLate, openAtDeath, kf, nops, nsBusy, fr, qfull, lastSeq>>
 
 \* Stream.Close() called by the teardown for one stream of the snapshot, then asyncGoroutineWg.Wait()
 TdStream == /\ Step("loop") /\ pc["loop"] = "t_stream"
@@ -364,32 +384,32 @@ TdStream == /\ Step("loop") /\ pc["loop"] = "t_stream"
                                   ELSE CloseStreamVars(s, TRUE)
             /\ UNCHANGED <<shutdown, serr, shutCh, ret, lambdas, batch, conn, link, hup, inbox, flag, tableNil, cbBusy,
                            peerClosed, fl, acc, bm, qm, sendLoop, ws, tdRuns, nsent, npc, lastOpen, lastSend, sendLate,
-                           openAtDeath, kf, nops, nsBusy>>
+                           openAtDeath, kf, nops, nsBusy, fr, qfull, lastSeq>>
 
 TdWait == /\ Step("loop") /\ pc["loop"] = "t_wait" /\ ~cbBusy[cur]
           /\ pc' = [pc EXCEPT !["loop"] = "t_stream"]
           /\ UNCHANGED <<shutdown, serr, shutCh, ret, lambdas, batch, conn, link, hup, inbox, flag, st, inTable, tableNil,
                          notified, cbBusy, waitExit, cbL, cbR, unread, peerClosed, rd, fl, acc, bm, qm, sendLoop, snap, cur,
-                         ws, tdRuns, nsent, npc, lastOpen, lastSend, sendLate, openAtDeath, kf, nops, nsBusy>>
+                         ws, tdRuns, nsent, npc, lastOpen, lastSend, sendLate, openAtDeath, kf, nops, nsBusy, fr, qfull, lastSeq>>
 
 TdBm == /\ Step("loop") /\ pc["loop"] = "t_bm"
         /\ bm' = "released" /\ pc' = [pc EXCEPT !["loop"] = "t_q"]
         /\ UNCHANGED <<shutdown, serr, shutCh, ret, lambdas, batch, conn, link, hup, inbox, flag, st, inTable, tableNil,
                        notified, cbBusy, waitExit, cbL, cbR, unread, peerClosed, rd, fl, acc, qm, sendLoop, snap, cur, ws,
-                       tdRuns, nsent, npc, lastOpen, lastSend, sendLate, openAtDeath, kf, nops, nsBusy>>
+                       tdRuns, nsent, npc, lastOpen, lastSend, sendLate, openAtDeath, kf, nops, nsBusy, fr, qfull, lastSeq>>
 
 TdQueue == /\ Step("loop") /\ pc["loop"] = "t_q"
            /\ qm' = "unmapped" /\ tdRuns' = tdRuns + 1 /\ pc' = [pc EXCEPT !["loop"] = "l_next"]
            /\ UNCHANGED <<shutdown, serr, shutCh, ret, lambdas, batch, conn, link, hup, inbox, flag, st, inTable, tableNil,
                           notified, cbBusy, waitExit, cbL, cbR, unread, peerClosed, rd, fl, acc, bm, sendLoop, snap, cur, ws,
-                          nsent, npc, lastOpen, lastSend, sendLate, openAtDeath, kf, nops, nsBusy>>
+                          nsent, npc, lastOpen, lastSend, sendLate, openAtDeath, kf, nops, nsBusy, fr, qfull, lastSeq>>
 
 -----------------------------------------------------------------------------
 \* the writer thread "w": Stream.Flush of one message through shared memory, and Stream.Close by the user
 \* Since 075bc66 Flush fails with ErrStreamClosed when the stream is not open OR the session is closed (written data is
 \* given back), and a BufferWriter write on a closed session allocates from the heap instead of the (unmapped) shared memory.
 \* FixedFlush = FALSE models the code before: the write after the teardown faults, a Flush in the window succeeds.
-SendCheck(s) == /\ Start /\ Op /\ pc["w"] = "idle" /\ s \notin CbStreams /\ st[s] # "none"
+SendCheck(s) == /\ Start /\ Op /\ pc["w"] = "idle" /\ s \notin CbStreams /\ st[s] # "none" /\ ~qfull
                 /\ ws' = s /\ sendLate' = (shutdown = 1)
                 /\ IF bm = "released" /\ ~FixedFlush
                      THEN pc' = pc /\ lastSend' = "fault" /\ kf' = kf \cup {"write-after-teardown-faults"}
@@ -399,7 +419,7 @@ SendCheck(s) == /\ Start /\ Op /\ pc["w"] = "idle" /\ s \notin CbStreams /\ st[s
                                ELSE pc' = pc /\ lastSend' = "err"
                 /\ UNCHANGED <<shutdown, serr, shutCh, ret, lambdas, batch, conn, link, hup, inbox, flag, st, inTable,
                                tableNil, notified, cbBusy, waitExit, cbL, cbR, unread, peerClosed, rd, fl, acc, bm, qm,
-                               sendLoop, snap, cur, tdRuns, nsent, npc, lastOpen, openAtDeath, nsBusy>>
+                               sendLoop, snap, cur, tdRuns, nsent, npc, lastOpen, openAtDeath, nsBusy, fr, qfull, lastSeq>>
 
 \* queue put + wakeUpPeer.  A write on a connection that is closing / whose peer is gone fails: exitErr from this goroutine
 \* (while the send loop sits in a blocked fallback write it holds `writing`: the polling event is only queued on sendCh)
@@ -418,9 +438,9 @@ SendPut == /\ Step("w") /\ pc["w"] = "s_put"
                           ELSE pc' = [pc EXCEPT !["w"] = "idle"] /\ UNCHANGED <<flag, ret>>
            /\ UNCHANGED <<shutdown, serr, shutCh, lambdas, batch, conn, link, hup, inbox, st, inTable, tableNil, notified,
                           cbBusy, waitExit, cbL, cbR, unread, peerClosed, rd, fl, acc, bm, qm, sendLoop, snap, cur, ws,
-                          tdRuns, nsent, npc, lastOpen, sendLate, openAtDeath, nops, nsBusy>>
+                          tdRuns, nsent, npc, lastOpen, sendLate, openAtDeath, nops, nsBusy, fr, qfull, lastSeq>>
 
-StreamClose(s) == /\ Start /\ Op /\ pc["w"] = "idle" /\ st[s] \notin {"closed", "none"} /\ ~cbBusy[s]
+StreamClose(s) == /\ Start /\ Op /\ pc["w"] = "idle" /\ st[s] \notin {"closed", "none"} /\ ~cbBusy[s] /\ ~qfull
                   /\ ~(pc["loop"] = "e_wait" /\ s = L1)      \* (D6: its data is still in the drain)
                   /\ ~\E i \in 1..Len(inbox) : inbox[i] = <<"d", s>>
                   /\ ws' = s
@@ -434,9 +454,33 @@ StreamClose(s) == /\ Start /\ Op /\ pc["w"] = "idle" /\ st[s] \notin {"closed", 
                        ELSE UNCHANGED <<flag, pc, ret>>
                   /\ UNCHANGED <<shutdown, serr, shutCh, lambdas, batch, conn, link, hup, inbox, tableNil, cbBusy, peerClosed,
                                  fl, acc, bm, qm, sendLoop, snap, cur, tdRuns, nsent, npc, lastOpen, lastSend, sendLate,
-                                 openAtDeath, kf, nsBusy>>
+                                 openAtDeath, kf, nsBusy, fr, qfull, lastSeq>>
 
 -----------------------------------------------------------------------------
+\* a Flush in the queue-full retry loop (D9)
+ParkRetryFlush == /\ Start /\ Op /\ WithRetry /\ fr = "idle" /\ ~qfull /\ fl # "parked" /\ pc["w"] = "idle"
+                  /\ shutdown = 0 /\ conn = "open" /\ link = "up" /\ ~tableNil
+                  /\ fr' = "parked" /\ qfull' = TRUE /\ flag' = 1
+                  /\ UNCHANGED <<shutdown, serr, shutCh, pc, ret, lambdas, batch, conn, link, hup, inbox, st, inTable, tableNil,
+                                 notified, cbBusy, waitExit, cbL, cbR, unread, peerClosed, rd, fl, acc, bm, qm, sendLoop, snap, cur,
+                                 ws, tdRuns, nsent, npc, nsBusy, lastSeq, lastOpen, lastSend, sendLate, openAtDeath, kf>>
+
+\* the retry loop gives up after its ten timers (ErrQueueFull) - or, without the closeNotifyCh arm, the next retry after the
+\* teardown touches the queue manager that is gone
+RetryExpire == /\ Start /\ fr = "parked"
+               /\ fr' = IF qm = "unmapped" THEN "fault" ELSE "err"
+               /\ UNCHANGED <<shutdown, serr, shutCh, pc, ret, lambdas, batch, conn, link, hup, inbox, flag, st, inTable, tableNil,
+                              notified, cbBusy, waitExit, cbL, cbR, unread, peerClosed, rd, fl, acc, bm, qm, sendLoop, snap, cur, ws,
+                              tdRuns, nsent, npc, nops, nsBusy, qfull, lastSeq, lastOpen, lastSend, sendLate, openAtDeath, kf>>
+
+\* writer call sequences on a stream of a shut-down session (D10)
+WriteSeq(s) == /\ Start /\ Op /\ WithSeq /\ shutdown = 1 /\ lastSeq = "none" /\ pc["w"] = "idle" /\ s \notin CbStreams
+               /\ st[s] # "none"
+               /\ lastSeq' = IF bm = "released" /\ ~FixedReserve THEN "fault" ELSE "ok"
+               /\ UNCHANGED <<shutdown, serr, shutCh, pc, ret, lambdas, batch, conn, link, hup, inbox, flag, st, inTable, tableNil,
+                              notified, cbBusy, waitExit, cbL, cbR, unread, peerClosed, rd, fl, acc, bm, qm, sendLoop, snap, cur, ws,
+                              tdRuns, nsent, npc, nsBusy, fr, qfull, lastOpen, lastSend, sendLate, openAtDeath, kf>>
+
 \* late streams (D8)
 DrainBegin == /\ Start /\ Op /\ LateStreams # {} /\ pc["loop"] = "idle" /\ shutdown = 0 /\ conn = "open" /\ link = "up"
               /\ ~hup /\ inbox = <<>> /\ st[L1] = "none" /\ fl # "parked"
@@ -444,12 +488,12 @@ DrainBegin == /\ Start /\ Op /\ LateStreams # {} /\ pc["loop"] = "idle" /\ shutd
               /\ nsBusy' = TRUE /\ pc' = [pc EXCEPT !["loop"] = "e_wait"]
               /\ UNCHANGED <<shutdown, serr, shutCh, ret, lambdas, batch, conn, link, hup, inbox, flag, tableNil, notified, cbBusy,
                              waitExit, cbL, cbR, unread, peerClosed, rd, fl, acc, bm, qm, sendLoop, snap, cur, ws, tdRuns, nsent,
-                             npc, lastOpen, lastSend, sendLate, openAtDeath, kf>>
+                             npc, lastOpen, lastSend, sendLate, openAtDeath, kf, fr, qfull, lastSeq>>
 
 NsRelease == /\ Start /\ nsBusy /\ nsBusy' = FALSE
              /\ UNCHANGED <<shutdown, serr, shutCh, pc, ret, lambdas, batch, conn, link, hup, inbox, flag, st, inTable, tableNil,
                             notified, cbBusy, waitExit, cbL, cbR, unread, peerClosed, rd, fl, acc, bm, qm, sendLoop, snap, cur, ws,
-                            tdRuns, nsent, npc, nops, lastOpen, lastSend, sendLate, openAtDeath, kf>>
+                            tdRuns, nsent, npc, nops, lastOpen, lastSend, sendLate, openAtDeath, kf, fr, qfull, lastSeq>>
 
 \* the rest of the same handlePolling drain: L1's data, then the element of L2: getStream registers it whatever `shutdown` is
 DrainEnd == /\ Step("loop") /\ pc["loop"] = "e_wait" /\ ~nsBusy
@@ -467,13 +511,14 @@ DrainEnd == /\ Step("loop") /\ pc["loop"] = "e_wait" /\ ~nsBusy
             /\ pc' = [pc EXCEPT !["loop"] = "idle"]
             /\ UNCHANGED <<shutdown, serr, shutCh, ret, lambdas, batch, conn, link, hup, flag, tableNil,
                            waitExit, cbL, peerClosed, fl, acc, bm, qm, sendLoop, snap, cur, ws, tdRuns, nsent, npc, nops,
-                           nsBusy, lastOpen, lastSend, sendLate, openAtDeath, kf>>
+                           nsBusy, lastOpen, lastSend, sendLate, openAtDeath, kf, fr, qfull, lastSeq>>
 
 ThreadStep(t) == ExitSetErr(t) \/ CloseCAS(t) \/ CloseErr(t) \/ CloseNotify(t) \/ CloseChan(t) \/ ClosePost(t)
 LoopStep == DrainEnd \/ DeferredClose \/ LNext \/ TdConn \/ TdTable \/ TdStream \/ TdWait \/ TdBm \/ TdQueue
 
 Next == \/ \E s \in Streams : PeerSend(s) \/ PeerCloseStream(s) \/ ParkRead(s) \/ CbRelease(s) \/ SendCheck(s) \/ StreamClose(s)
         \/ PeerDrain \/ PeerDies \/ ParkAccept \/ ParkFlush \/ TryOpen \/ DrainBegin \/ NsRelease
+        \/ ParkRetryFlush \/ RetryExpire \/ \E s \in Streams : WriteSeq(s)
         \/ \E c \in Closers : CloseCall(c)
         \/ \E t \in Threads : ThreadStep(t)
         \/ Events \/ Lambdas \/ LoopStep \/ SendPut
@@ -481,7 +526,7 @@ Next == \/ \E s \in Streams : PeerSend(s) \/ PeerCloseStream(s) \/ ParkRead(s) \
 Fair == /\ \A t \in Threads : WF_vars(ThreadStep(t))
         /\ WF_vars(Events) /\ WF_vars(Lambdas) /\ WF_vars(LoopStep) /\ WF_vars(SendPut)
         /\ \A s \in Streams : WF_vars(CbRelease(s))
-        /\ WF_vars(NsRelease)
+        /\ WF_vars(NsRelease) /\ WF_vars(RetryExpire)
 
 Spec == Init /\ [][Next]_vars /\ Fair
 
@@ -500,13 +545,15 @@ SurvivorClosed == (link = "down" /\ ~hup /\ pc["loop"] = "idle") => shutdown = 1
 \* whoever observes IsClosed() gets a proper error from then on (OpenStream must not return nil, nil)
 ErrorKnown == lastOpen # "nilnil"
 \* "pending calls fail": a parked call is released by the step that closes its channel
-PendingReleased == /\ shutCh => (acc # "parked" /\ fl # "parked")
+PendingReleased == /\ shutCh => (acc # "parked" /\ fl # "parked" /\ (RetryWoken => fr # "parked"))
                    /\ \A s \in Streams : notified[s] => rd[s] # "parked"
                    /\ Final => \A s \in Streams : rd[s] # "parked"
 \* "later calls fail": a Flush that starts after the session is shut down does not report success; nothing faults
-LaterFail == (lastSend = "ok" => ~sendLate) /\ lastSend # "fault"
-NoFault == lastSend # "fault"
+LaterFail == (lastSend = "ok" => ~sendLate) /\ lastSend # "fault" /\ fr # "fault" /\ lastSeq # "fault"
+NoFault == lastSend # "fault" /\ fr # "fault" /\ lastSeq # "fault"
 NoRace == "stream-op-races-unmap" \notin kf
+RetryNoFault == fr # "fault"          \* violated in the model with RetryWoken = FALSE
+SeqNoFault == lastSeq # "fault"       \* violated in the model with FixedReserve = FALSE
 \* "every stream gets its close callback": never twice; exactly once when everything is over
 CallbackAtMostOnce == \A s \in CbStreams : cbL[s] + cbR[s] <= 1
 CallbackExactlyOnce == Final => \A s \in CbStreams : cbL[s] + cbR[s] = 1
